@@ -356,6 +356,9 @@ pub struct RecvStream {
     is_0rtt: bool,
     pending_stop: Option<VarInt>,
     id: quinn::StreamId,
+    // Quinn reports a failed read (reset by the peer, connection lost) once and a clean end of
+    // stream on every read after it. The error is kept here so that it is reported again.
+    read_error: Option<ReadError>,
 }
 
 type ReadChunkFuture = ReusableBoxFuture<
@@ -377,6 +380,7 @@ impl RecvStream {
             is_0rtt,
             pending_stop: None,
             id,
+            read_error: None,
         }
     }
 }
@@ -389,6 +393,12 @@ impl quic::RecvStream for RecvStream {
         &mut self,
         cx: &mut task::Context<'_>,
     ) -> Poll<Result<Option<Self::Buf>, StreamErrorIncoming>> {
+        if let Some(error) = &self.read_error {
+            // A stream that was reset must not look like one that ended cleanly (in the middle of
+            // a frame, as far as h3 can tell) when it is read again.
+            return Poll::Ready(Err(convert_read_error_to_stream_error(error.clone())));
+        }
+
         if let Some(mut stream) = self.stream.take() {
             self.read_chunk_fut.set(async move {
                 let chunk = stream.read_chunk(usize::MAX, true).await;
@@ -401,9 +411,13 @@ impl quic::RecvStream for RecvStream {
             let _ = stream.stop(error_code);
         }
         self.stream = Some(stream);
-        Poll::Ready(Ok(chunk
-            .map_err(convert_read_error_to_stream_error)?
-            .map(|c| c.bytes)))
+        match chunk {
+            Ok(chunk) => Poll::Ready(Ok(chunk.map(|c| c.bytes))),
+            Err(error) => {
+                self.read_error = Some(error.clone());
+                Poll::Ready(Err(convert_read_error_to_stream_error(error)))
+            }
+        }
     }
 
     #[cfg_attr(feature = "tracing", instrument(skip_all, level = "trace"))]
